@@ -6,30 +6,34 @@ CLAIM = True
 MANIFEST_TEXT = ("Lean 4 theorems over an arbitrary commutative ring with a conjugation map, for all shapes and entries: the eleven "
                  "kernels mv..usmhv of DenseMatrix and of DiagonalMatrix equal their algebraic definitions (Hermitian ones with conj); the "
                  "three-deep product loop nests (operator*, leftmultiply/rightmultiply, left/rightmultiplyany, multMatrix, "
-                 "multTransposedMatrix), multAssign(Transposed), transposed() and the elementwise vector loops (+=, -=, +=k, -=k, *=k, /=k, "
-                 "axpy, unary -, +, -, operator*, dot with the conjugated argument of dotproduct.hh) are run by small interpreters from "
-                 "signature tables that tr_c01.py re-reads from densematrix.hh / diagonalmatrix.hh / fmatrix.hh / dynmatrix.hh / "
-                 "densevector.hh / dotproduct.hh / transpose.hh on every run, and are proved equal to their definitions incl. result shape "
-                 "and frame; diagonal, 1x1-scalar-view, transposed-view and view-of-view representations give the results of the full "
+                 "multTransposedMatrix), multAssign(Transposed), transposed(), the elementwise vector loops (+=, -=, +=k, -=k, *=k, /=k, "
+                 "axpy, unary -, +, -, operator*, dot with the conjugated argument of dotproduct.hh) and the fresh-result loops "
+                 "(FieldVector*k, k*FieldVector, FieldVector/k, FieldMatrix+FieldMatrix, -, *k, k*, /k, unary minus of DenseMatrix) are run "
+                 "by small interpreters from signature tables that tr_c01.py re-reads from densematrix.hh / diagonalmatrix.hh / fmatrix.hh / "
+                 "fvector.hh / dynmatrix.hh / densevector.hh / dotproduct.hh / transpose.hh on every run, and are proved equal to their "
+                 "definitions incl. result shape and frame; A.leftmultiply(A) and A.rightmultiply(A) (the matrix as its own argument) give "
+                 "A*A: the translator reads that the nests accumulate in the copy C and copy back, so the factors are read unmodified "
+                 "(self_mul_spec); unary minus leaves its operand's storage unchanged also when the operand is a scalar view (the result is "
+                 "declared with the autonomous value type, read from the source; neg_operand_unchanged); diagonal, 1x1-scalar-view, transposed-view and view-of-view representations give the results of the full "
                  "matrix with the same entries (kernels, products, +=,-=,*=,/=,==), two representations with equal entries give equal "
                  "kernel results, conversions FieldMatrix/DynamicMatrix <- any representation keep the entries. Object histories: a store "
                  "model in which every object is a register pointing to the storage it reads and writes (scalar variables behind "
                  "asVector/asMatrix views, the matrix behind transposedView); what the three assignment operators of ScalarVectorView / "
                  "ScalarMatrixView do with that pointer (copy the entry vs. re-point the handle) and whether transposedView holds a "
                  "reference or a copy is re-read from scalarvectorview.hh / scalarmatrixview.hh / transpose.hh; proved for all histories: "
-                 "every executed operation (=, =k, +=, -=, axpy, *=, leftmultiply, rightmultiply, the 11 kernels, also through a "
+                 "every executed operation (=, =k, +=, -=, axpy, *=, leftmultiply, rightmultiply — each also with the object as its own argument —, the 11 kernels, also through a "
                  "transposed view, row assignment T[i]=S[j] and T[i].axpy(k,S[j])) is exactly one write of the algebraic result into the storage of its target object, every other "
                  "storage cell (every operand taken as input only) is unchanged, every object keeps referring to the storage it was "
                  "created for, a transposed view shows the current content of its matrix. The model is run against "
                  "FieldMatrix/DynamicMatrix/DiagonalMatrix/ScalarMatrixView/transposed views (also nested, also as left factor) and "
                  "FieldVector/DynamicVector (mixed as kernel arguments) over int, double, complex<double> and GF(32003) on >= 40k cases "
                  "per run, with naive loops as independent oracle and operands compared before/after every call; ~10% of the cases are "
-                 "object histories of 1..8 operations on 2..5 objects (scalar views of mutable / const scalars, FieldVector, DynamicVector, "
+                 "object histories of 1..8 operations (about one binary operation in five has the target object as its own argument) on 2..5 objects (scalar views of mutable / const scalars, FieldVector, DynamicVector, "
                  "FieldMatrix 1x1 / 2x2, DynamicMatrix, DiagonalMatrix, transposed views made before the first operation) where after "
                  "every operation the storage behind every object (the scalar variable itself, not the view) is compared with the "
                  "definition and with what the object shows.")
 MANIFEST_NOTE = ("Trusted: Lean kernel (+propext/Classical.choice/Quot.sound), tr_c01.py, fidelity of the hand-written parts of the "
-                 "model (1x1 / size-1 specialisations, FieldMatrix/FieldVector operators with a scalar, FieldMatrix +/-, row-wise "
+                 "model (1x1 / size-1 specialisations, row-wise "
                  "delegation of the DenseMatrix compound assignments, DiagonalMatrix*DiagonalMatrix, conversions, `= scalar`, which "
                  "overload an assignment between two object kinds selects; differential run only), "
                  "harness + driver parsing. Static FieldMatrix shapes: all of 1..4 x 1..4 for complex<double>, subsets covering all 16 "
@@ -38,8 +42,11 @@ MANIFEST_NOTE = ("Trusted: Lean kernel (+propext/Classical.choice/Quot.sound), t
                  "_GLIBCXX_ASSERTIONS (exact index checks of std::array / std::vector) + UBSan(bounds, signed overflow, shifts, "
                  "division, ...; without null/alignment/vptr/pointer-overflow/object-size). Floating-point rounding is outside the "
                  "property (exact fields only); complex division only with divisors for which libgcc's Smith division is exact. "
-                 "Aliasing between the written object and an argument (A.rightmultiply(A), A.umv(x,x)) is outside the model; in an "
-                 "object history two objects never share storage unless the code under test makes them (which the check reports). "
+                 "A kernel's x and y are distinct objects (the library asserts this for mv/mtv; A.umv(x,x) is outside the property); the "
+                 "binary operations of a history are executed with the object as its own argument as well (A+=A, A=A, A.axpy(k,A), "
+                 "A.leftmultiply(A), A.rightmultiply(A)); otherwise two objects of a history never share storage unless the code under "
+                 "test makes them (which the check reports). Unary minus of the scalar views is exercised for asMatrix(s)/asVector(s) "
+                 "of a mutable scalar. "
                  "Object histories use FieldVector<K,1..3>, DynamicVector 1..4, FieldMatrix 1x1 and 2x2, DynamicMatrix up to 3x3, "
                  "DiagonalMatrix<K,2>; transposed views of a 2x2 FieldMatrix, DynamicMatrix, DiagonalMatrix<K,2>, ScalarMatrixView.")
 TECHNIQUE = ("Lean 4 proof over loop-nest interpreters and a store-with-handles model + translator for kernel / product / elementwise-loop "
@@ -59,11 +66,14 @@ RULE = ("cases: random field K in {int, double, complex<double>, GF(32003)} x op
         "representations incl. a transposed view as left factor and views of views; leftmultiply/rightmultiply(any), multMatrix, "
         "multTransposedMatrix, multAssign(Transposed)/mult/multTransposed; transposed/transpose/asDense; conversions FieldMatrix/"
         "DynamicMatrix <- any representation and FieldVector <-> DynamicVector; matrix +=,-=,+,-,*=,/=,*s,s*,/s,axpy,unary -,==,!=; "
+        "unary - also of asMatrix(s) / asVector(s) with the viewed scalar re-read after the call; "
         "FieldMatrix<K,1,1> +-scalar, scalar+-, +=s, -=s, conversion; vector +=,-=,+,-,unary -,+=s,-=s,*=,/=,*s,s*,/s,axpy,==,!=,"
         "operator*,dot, free dot/dotT, FieldVector<K,1>/scalar mixes incl. ==,!=,<,<=,>,>= and conversion; 10% object histories "
         "`seq`: 2..5 objects of one size family (1 / 2 / dynamic r x c up to 3) out of asVector(s), asVector(const s), FieldVector, "
         "DynamicVector, asMatrix(s), asMatrix(const s), FieldMatrix, DynamicMatrix, DiagonalMatrix, transposedView(A) / transpose(const reference_wrapper) of an earlier object, "
-        "then 1..8 operations drawn uniformly among the operand tuples the operation is executed for: object=object (4/19), =k, +=, -=, "
+        "then 1..8 operations drawn uniformly among the operand tuples the operation is executed for (a tuple with the target as its own "
+        "argument one time out of seven when there is another choice; operations that could leave the exact range of int/double are "
+        "skipped by a magnitude bound): object=object (4/19), =k, +=, -=, "
         "axpy, *=k, leftmultiply, rightmultiply, a kernel (4/19; through a view half of the time when one exists), row ops T[i]=S[j] "
         "(2/19), T[i].axpy(k,S[j])) x representation(s) in "
         "{FieldMatrix r x c (1..4), DynamicMatrix (1..6), DiagonalMatrix, ScalarMatrixView, transposed view / transposed copy / view "
@@ -71,8 +81,8 @@ RULE = ("cases: random field K in {int, double, complex<double>, GF(32003)} x op
         "small, random); distinct = distinct op lines; non-trivial = the oracle compared a computed result with the definition "
         "(divisions outside the exact domain are trivial)")
 ASSUMPTIONS = [
-    "the signature tables of the kernels, of the product / transposition loop nests, of multAssign(Transposed) and of the elementwise DenseVector loops and dot products are regenerated from the source by tools/translators/tr_c01.py (a statement outside its grammar makes the obligation fail); the 1x1 / size-1 specialisations, the FieldMatrix/FieldVector operators with a scalar, FieldMatrix +/-, the row-wise delegation of the DenseMatrix compound assignments, DiagonalMatrix*DiagonalMatrix and the conversions are hand-written in lean/DuneVerif/Model/C01.lean and Driver/C01.lean and tied to the code by this differential run",
-    "an argument never aliases the object an operation writes to (value semantics of the model; the code asserts this for mv/mtv only); in object histories distinct objects have distinct storage and a kernel's x and y are distinct objects",
+    "the signature tables of the kernels, of the product / transposition loop nests, of multAssign(Transposed) and of the elementwise DenseVector loops and dot products are regenerated from the source by tools/translators/tr_c01.py (a statement outside its grammar makes the obligation fail); the fresh-result loops FieldVector*k, k*v, v/k, FieldMatrix +,-,*k,k*,/k and the unary minus of DenseMatrix as well (round four); the 1x1 / size-1 specialisations, the row-wise delegation of the DenseMatrix compound assignments, DiagonalMatrix*DiagonalMatrix and the conversions are hand-written in lean/DuneVerif/Model/C01.lean and Driver/C01.lean and tied to the code by this differential run",
+    "a kernel's x and y are distinct objects (asserted by the code for mv/mtv only; decided outside the property); the binary operations of a history (=, +=, -=, axpy, leftmultiply, rightmultiply) are executed and proved also with the target as its own argument, the definition being evaluated on the entries held when the call is made; otherwise distinct objects of a history have distinct storage",
     "object histories: what the assignment operators of ScalarVectorView / ScalarMatrixView do with their pointer and what transposedView holds is regenerated from the source (Gen.svv_*, Gen.smv_*, Gen.tvHolds); which overload `object = object` selects for a pair of kinds (same view type / view of the other constness / conversion to the scalar / the owning class's entry copy), `= scalar` and the availability table of the operations are hand-written in Model/C01/Store.lean and tied to the code by the differential run",
     "entries are small integers, so int does not overflow and double / complex<double> arithmetic is exact; floating-point rounding is not part of the property",
     "division is exercised only where it is exact (divisible operands; complex divisors for which libgcc's Smith algorithm is exact; non-zero divisors in GF(32003))",
